@@ -609,3 +609,17 @@ Module RulesExamples.
     f7_class 100 (bodsR D) (isco (coD D)) [atom 1000 Nn; atom 1000 M] 1 = false.
   Proof. repeat split; reflexivity. Qed.
 End RulesExamples.
+
+Module F7qExample.
+  (* S0 { a: S1 }  S1 { a: S3, b: S2 }  S2 { a: S1, b: S3 }  S3 { a: S2 };  #[auto] Sync = 1000 *)
+  Definition T (i : N) := tAdt i [].
+  Definition D : decls := mkDecls
+    [mkAdt 0 0 true false [[T 1]]; mkAdt 1 0 true false [[T 3; T 2]]; mkAdt 2 0 true false [[T 1; T 3]]; mkAdt 3 0 true false [[T 2]];
+     mkAdt 4 0 true false [[T 5]]; mkAdt 5 0 true false [[T 6]]; mkAdt 6 0 true false [[T 5]]]
+    [mkTrait 1000 true false None] [].
+  Example f7q_witness :
+    evalR 100 D (atom 1000 (T 0)) = Some true /\
+    f7q_class 100 (bodsR D) (isco (coD D)) (atom 1000 (T 0)) = true /\
+    f7q_class 100 (bodsR D) (isco (coD D)) (atom 1000 (T 4)) = false.   (* a simple ring entered from outside *)
+  Proof. repeat split; reflexivity. Qed.
+End F7qExample.
